@@ -251,10 +251,18 @@ func (s *sanCtx) ok(v ssa.Value, depth int) (bool, string) {
 			}
 		}
 		return true, ""
+	case *ssa.BinOp:
+		// a concatenation of program constants is a program constant (never user input)
+		if x.Op == token.ADD && s.constOrigin(x.X, 0) && s.constOrigin(x.Y, 0) {
+			return true, ""
+		}
 	case *ssa.UnOp:
 		if x.Op == token.MUL {
 			if fa, ok := x.X.(*ssa.FieldAddr); ok {
 				return s.field(fa, depth)
+			}
+			if s.constOrigin(x, 0) {
+				return true, ""
 			}
 			if al, ok := x.X.(*ssa.Alloc); ok {
 				for _, ref := range *al.Referrers() {
@@ -287,6 +295,115 @@ func (s *sanCtx) ok(v ssa.Value, depth int) (bool, string) {
 		}
 	}
 	return false, "value of unknown origin (" + describeVal(v) + ")"
+}
+
+// constOrigin: v is built from program constants only — a constant, a concatenation of such values, a
+// variable (possibly captured by a function literal) whose every store is such a value, or the parameter
+// of a local function literal that is only ever called with such values.
+func (s *sanCtx) constOrigin(v ssa.Value, depth int) bool {
+	if depth > 8 {
+		return false
+	}
+	switch x := v.(type) {
+	case *ssa.Const:
+		return true
+	case *ssa.BinOp:
+		return x.Op == token.ADD && s.constOrigin(x.X, depth+1) && s.constOrigin(x.Y, depth+1)
+	case *ssa.UnOp:
+		if x.Op != token.MUL {
+			return false
+		}
+		root := rootFn(x.Parent())
+		cell := cellOf(x.X, freeVarBindings(root))
+		al, ok := cell.(*ssa.Alloc)
+		if !ok {
+			return false
+		}
+		n := 0
+		for _, ref := range *al.Referrers() {
+			if st, ok := ref.(*ssa.Store); ok && st.Addr == al {
+				n++
+				if !s.constOrigin(st.Val, depth+1) {
+					return false
+				}
+			}
+		}
+		return n > 0
+	case *ssa.Parameter:
+		lit := x.Parent()
+		if lit.Parent() == nil {
+			return false
+		}
+		idx := -1
+		for i, q := range lit.Params {
+			if q == x {
+				idx = i
+			}
+		}
+		// every use of the literal is a call (directly, or through the one local it is bound to)
+		root := rootFn(lit)
+		calls, escapes := 0, false
+		var closures []ssa.Value
+		allInstrs(root, func(_ *ssa.Function, ins ssa.Instruction) {
+			if mc, ok := ins.(*ssa.MakeClosure); ok && mc.Fn == ssa.Value(lit) {
+				closures = append(closures, mc)
+			}
+		})
+		if len(lit.FreeVars) == 0 {
+			closures = append(closures, lit)
+		}
+		okAll := true
+		var follow func(val ssa.Value, d int)
+		follow = func(val ssa.Value, d int) {
+			if d > 4 || val.Referrers() == nil {
+				if val.Referrers() == nil {
+					// a bare *ssa.Function has no referrers list: find its calls
+					allInstrs(root, func(_ *ssa.Function, ins ssa.Instruction) {
+						if c, ok := ins.(*ssa.Call); ok && c.Call.Value == val {
+							calls++
+							if idx >= len(c.Call.Args) || !s.constOrigin(c.Call.Args[idx], depth+1) {
+								okAll = false
+							}
+						}
+					})
+				}
+				return
+			}
+			for _, ref := range *val.Referrers() {
+				switch y := ref.(type) {
+				case *ssa.Call:
+					if y.Call.Value == val {
+						calls++
+						if idx >= len(y.Call.Args) || !s.constOrigin(y.Call.Args[idx], depth+1) {
+							okAll = false
+						}
+					} else {
+						escapes = true
+					}
+				case *ssa.Store:
+					if y.Val == val {
+						if al, ok := y.Addr.(*ssa.Alloc); ok {
+							for _, r2 := range *al.Referrers() {
+								if ld, ok := r2.(*ssa.UnOp); ok && ld.Op == token.MUL {
+									follow(ld, d+1)
+								}
+							}
+							continue
+						}
+					}
+					escapes = true
+				case *ssa.DebugRef:
+				default:
+					escapes = true
+				}
+			}
+		}
+		for _, c := range closures {
+			follow(c, 0)
+		}
+		return okAll && !escapes && calls > 0
+	}
+	return false
 }
 
 // field: every store into that field (anywhere in the module) is sanitised.
@@ -598,36 +715,115 @@ func c14ImportBlock(e *Env) {
 		r.Undecide("R14.6", key, "anchor not found")
 		return
 	}
-	// a range over the table with no conditional other than the iteration itself
-	conds, ranges := 0, 0
+	// the table is walked completely — by a range over the map or over maps.Keys(map) — with no conditional
+	// other than the iteration itself; Path is the key and Alias the value stored under that key
+	isTable := func(v ssa.Value) bool {
+		ld, ok := v.(*ssa.UnOp)
+		if !ok {
+			return false
+		}
+		fa, ok := ld.X.(*ssa.FieldAddr)
+		if !ok {
+			return false
+		}
+		_, isMap := ld.Type().Underlying().(*types.Map)
+		return isMap && fieldName(fa) == "imports"
+	}
+	keys := map[ssa.Value]bool{} // values that are a key of the table in the current iteration
+	vals := map[ssa.Value]bool{} // values that are the value stored under that key
+	loopConds := map[ssa.Value]bool{}
+	walks := 0
 	for _, b := range fn.Blocks {
 		for _, ins := range b.Instrs {
-			if _, ok := ins.(*ssa.Range); ok {
-				ranges++
-			}
-		}
-		if iff, ok := b.Instrs[len(b.Instrs)-1].(*ssa.If); ok {
-			if _, isExtract := iff.Cond.(*ssa.Extract); !isExtract {
-				conds++
+			switch x := ins.(type) {
+			case *ssa.Range:
+				if isTable(x.X) {
+					walks++
+					for _, ref := range *x.Referrers() {
+						if nx, ok := ref.(*ssa.Next); ok {
+							for _, r2 := range *nx.Referrers() {
+								if ex, ok := r2.(*ssa.Extract); ok {
+									switch ex.Index {
+									case 0:
+										loopConds[ex] = true
+									case 1:
+										keys[ex] = true
+									case 2:
+										vals[ex] = true
+									}
+								}
+							}
+						}
+					}
+				}
+			case *ssa.Call:
+				callee := x.Call.StaticCallee()
+				if callee == nil || len(x.Call.Args) != 1 || !isTable(x.Call.Args[0]) {
+					continue
+				}
+				nm := callee.Name()
+				if o := callee.Origin(); o != nil {
+					nm = o.Name()
+				}
+				if nm != "Keys" || !e.P.InModule(callee) {
+					continue
+				}
+				walks++
+				// elements of the key slice
+				for _, ref := range *x.Referrers() {
+					switch y := ref.(type) {
+					case *ssa.IndexAddr:
+						for _, r2 := range *y.Referrers() {
+							if ld, ok := r2.(*ssa.UnOp); ok {
+								keys[ld] = true
+							}
+						}
+					case *ssa.Call:
+						if bi, ok := y.Call.Value.(*ssa.Builtin); ok && bi.Name() == "len" {
+							for _, r2 := range *y.Referrers() {
+								if bo, ok := r2.(*ssa.BinOp); ok && bo.Op == token.LSS {
+									loopConds[bo] = true
+								}
+							}
+						}
+					}
+				}
 			}
 		}
 	}
-	r.Check(ranges == 1 && conds == 0, "R14.6", key+"#every-entry", fmt.Sprintf("every table entry is returned (one range, %d extra conditions)", conds))
-	// both fields are filled from key and value
+	for _, b := range fn.Blocks {
+		for _, ins := range b.Instrs {
+			if lk, ok := ins.(*ssa.Lookup); ok && isTable(lk.X) && keys[lk.Index] && !lk.CommaOk {
+				vals[lk] = true
+			}
+		}
+	}
+	conds := 0
+	for _, b := range fn.Blocks {
+		if iff, ok := b.Instrs[len(b.Instrs)-1].(*ssa.If); ok && !loopConds[iff.Cond] {
+			conds++
+		}
+	}
+	r.Check(walks == 1 && conds == 0, "R14.6", key+"#every-entry", fmt.Sprintf("every table entry is returned (%d walks over the table, %d extra conditions)", walks, conds))
 	var fields []string
 	for _, b := range fn.Blocks {
 		for _, ins := range b.Instrs {
 			if st, ok := ins.(*ssa.Store); ok {
-				if fa, ok := st.Addr.(*ssa.FieldAddr); ok {
-					if ex, ok := st.Val.(*ssa.Extract); ok {
-						fields = append(fields, fmt.Sprintf("%s←%d", fieldName(fa), ex.Index))
+				if fa, ok := st.Addr.(*ssa.FieldAddr); ok && (fieldName(fa) == "Path" || fieldName(fa) == "Alias") {
+					switch {
+					case keys[st.Val]:
+						fields = append(fields, fieldName(fa)+"←key")
+					case vals[st.Val]:
+						fields = append(fields, fieldName(fa)+"←value")
+					default:
+						fields = append(fields, fieldName(fa)+"←?")
 					}
 				}
 			}
 		}
 	}
 	sort.Strings(fields)
-	r.Check(strings.Join(fields, ",") == "Alias←2,Path←1", "R14.6", key+"#fields", fmt.Sprintf("Import.Path is the table key (the path) and Import.Alias its value (found %v)", fields))
+	r.Check(strings.Join(fields, ",") == "Alias←value,Path←key", "R14.6", key+"#fields", fmt.Sprintf("Import.Path is the table key (the path) and Import.Alias its value (found %v)", fields))
 	// head template: prints alias and path for each import
 	te := newSkelBuilder(e)
 	if te.te.Head != nil {
